@@ -62,6 +62,11 @@ STATEMENT_STATUS = {
     "C15_no_overwrite": "proved",
     "C15_unique_terminates": "proved (fuel = |existing| + 1)",
     "C15_cmap_pinned_cex / C15_image_pinned_cex": "proved counter-examples for the pinned code",
+    "C15_safe_name_algebra": "proved (every byte string; replaced set and replacement regenerated from the code)",
+    "C15_cmap_probe_exact": "proved (exact probe list <dir>/<name>.pickle.gz in list order; guard comparison translated)",
+    "C15_cmap_dirs_absolute": "proved (CMAP_PATH unset: regenerated default and <package>/cmap are absolute, probes independent of the working directory)",
+    "C15_norm_canonical / C15_directly_in_no_dotdot": "proved (normpath of every byte string: canonical components; DirectlyIn an absolute directory = an entry of it)",
+    "C15_history": "proved (every history of exports, arbitrary existing files: all named, names and paths distinct, fresh, inside)",
 }
 CLASSIFIERS: Dict[str, Any] = {}
 
@@ -122,6 +127,7 @@ def install_hook() -> None:
 
 # ------------------------------------------------------------------ sandbox
 
+DEFAULT_CMAP_PATH = "/usr/share/pdfminer/"        # the documented default of CMAP_PATH
 DECOY_PICKLE = {"IS_VERTICAL": False, "CODE2CID": {}, "CID2UNICHR_H": {}, "CID2UNICHR_V": {}}
 
 
@@ -140,7 +146,9 @@ class Sandbox:
         self.victim_top = os.path.join(self.root, "victim")
         self.rsrc = os.path.join(self.root, "rsrc")
         self.decoy = os.path.join(self.root, "decoy")
-        for d in (self.out, self.victim, self.victim_top, self.rsrc, self.decoy, os.path.join(self.rsrc, "to-unicode-x"),
+        # round 6: the process's working directory while a document is processed (holds decoy <name>.pickle.gz files)
+        self.cwd = os.path.join(self.root, "cwd")
+        for d in (self.cwd, self.out, self.victim, self.victim_top, self.rsrc, self.decoy, os.path.join(self.rsrc, "to-unicode-x"),
                   os.path.join(self.rsrc, "sub")):
             os.makedirs(d)
         blob = gzip.compress(pickle.dumps(DECOY_PICKLE))
@@ -260,7 +268,21 @@ def nontrivial_name(s: str) -> bool:
     return "/" in s or ".." in s or "\x00" in s
 
 
+PLAIN_CMAP_NAMES = ["good", "Evil", "H", "UniJIS-UCS2-H", "Acme", "x.y", "evil", "90ms-RKSJ-H", "nope"]
+
+
 def gen_case(rng) -> Dict[str, Any]:
+    case = _gen_case(rng)
+    # round 6: the environment the library runs in, and plain names (no path-like character at all)
+    case["cmap_env"] = rng.choice(["dir", "dir", "unset", "unset", "empty"])
+    if rng.random() < 0.35:
+        for k in ("enc", "usecmap", "registry"):
+            if case.get(k) is not None and rng.random() < 0.6:
+                case[k] = rng.choice(PLAIN_CMAP_NAMES)
+    return case
+
+
+def _gen_case(rng) -> Dict[str, Any]:
     names = hostile_names(rng)
     flow = rng.choice(["encoding-name", "encoding-stream", "usecmap", "registry"])
     case: Dict[str, Any] = {
@@ -387,6 +409,7 @@ def run_impl(case: Dict[str, Any]):
     logging.getLogger("pdfminer").setLevel(logging.ERROR)      # damaged images are reported with warnings: not our output
     sb = Sandbox(case.get("pre", []))
     old_env = os.environ.get("CMAP_PATH")
+    old_cwd = os.getcwd()
     try:
         # safety net of the harness itself: even the UNREPAIRED code must not be able to write outside the sandbox
         case = dict(case)
@@ -397,7 +420,24 @@ def run_impl(case: Dict[str, Any]):
         pdf = build_pdf(case, sb)
         CMapDB._cmap_cache.clear()
         CMapDB._umap_cache.clear()
-        os.environ["CMAP_PATH"] = sb.rsrc
+        # round 6: CMAP_PATH set to a directory / not set / set to the empty string; the working directory is a scratch
+        # directory that holds a loadable <name>.pickle.gz for every plain CMap name this document asks for
+        cmap_env = case.get("cmap_env", "dir")
+        if cmap_env == "dir":
+            os.environ["CMAP_PATH"] = sb.rsrc
+        elif cmap_env == "empty":
+            os.environ["CMAP_PATH"] = ""
+        else:
+            os.environ.pop("CMAP_PATH", None)
+        blob = gzip.compress(pickle.dumps(DECOY_PICKLE))
+        for n in predict_loads(case, sb.root):
+            if n and "/" not in n and "\x00" not in n and len(n.encode("utf-8", "surrogateescape")) < 200:
+                try:
+                    with open(os.path.join(sb.cwd, n + ".pickle.gz"), "wb") as fp:
+                        fp.write(blob)
+                except (OSError, UnicodeError):
+                    pass
+        os.chdir(sb.cwd)
         before = sb.snapshot()
         out = io.BytesIO()
         exc = None
@@ -474,8 +514,10 @@ def run_impl(case: Dict[str, Any]):
             else:
                 other.append((ev, args[:2]))
         return {"rewritten": rewritten, "excs": excs, "stats": stats, "inpath": inpath, "respath": respath, "opens": opens, "other": other, "created": created, "changed": changed, "removed": removed, "exc": exc,
-                "root": sb.root, "out": sb.out, "rsrc": sb.rsrc, "after": after, "pdf_len": len(pdf)}
+                "root": sb.root, "out": sb.out, "rsrc": sb.rsrc, "after": after, "pdf_len": len(pdf), "cwd": sb.cwd,
+                "cmap_env": cmap_env}
     finally:
+        os.chdir(old_cwd)
         if old_env is None:
             os.environ.pop("CMAP_PATH", None)
         else:
@@ -506,9 +548,13 @@ def is_import_noise(p: str) -> bool:
 
 def judge(case: Dict[str, Any], r: Dict[str, Any]) -> Optional[Tuple[str, Any, Any, Dict[str, Any]]]:
     """The property on the implementation."""
-    root, out, rsrc = r["root"], r["out"], r["rsrc"]
+    root, out = r["root"], r["out"]
     cdir = cmap_dir()
-    tags = {"flow": case["flow"], "exc": r["exc"]}
+    # the resource directories: <package>/cmap and the directory CMAP_PATH names - the documented default
+    # /usr/share/pdfminer/ when it is not set; set to the empty string the user names the working directory
+    env = r.get("cmap_env", "dir")
+    rsrc = {"dir": r["rsrc"], "unset": os.path.normpath(DEFAULT_CMAP_PATH), "empty": r.get("cwd")}[env]
+    tags = {"flow": case["flow"], "exc": r["exc"], "cmap_env": env}
     for p, mode in r["opens"]:
         if is_import_noise(p):
             continue
@@ -623,16 +669,19 @@ def check_case(ctx: C.Ctx, case: Dict[str, Any], lines, impl, inputs, shrink: bo
         ctx.fail(C.Failure(v[0], {"mode": "doc", "case": case}, v[1], v[2], v[3]))
     # ---- tie: CMap probes ----
     cdir = cmap_dir()
-    dirs = [r["rsrc"], cdir]
+    env = r.get("cmap_env", "dir")
+    env_wire = {"dir": hexs(r["rsrc"]), "unset": "none", "empty": "-"}[env]
+    ctx.branch("cmap-env:" + env)
     exp_opens: List[str] = []
     loads = predict_loads(case, root) * max(1, int(case.get("repeat", 1)))     # every document loads its CMaps again
     probe_lines = []
     for n in loads:
-        probe_lines.append("cmap %s,%s %s" % (hexs(dirs[0]), hexs(dirs[1]), hexs(n)))
+        # the model derives the directory list from the environment value and the package directory (default regenerated)
+        probe_lines.append("cmapenv %s %s %s" % (env_wire, hexs(os.path.dirname(cdir)), hexs(n)))
     obs = [p for p, mode in r["opens"] if p.endswith(".pickle.gz")]
     inputs.append(("cmap-opens", {"case": case, "loads": [n.replace(root, "{ROOT}") for n in loads]}))
     lines.append(("probes", probe_lines, loads, root, r["after"],
-                  [p for p in r["stats"] if p.endswith(".pickle.gz")]))
+                  [p for p in r["stats"] if p.endswith(".pickle.gz")], r.get("cwd")))
     impl.append([p for p in obs])
     # ---- tie: image names ----
     existing = list(case.get("pre", []))
@@ -685,7 +734,7 @@ def resolve_ties(ctx: C.Ctx, lines, impl, inputs) -> None:
     img_index: List[Tuple[int, int]] = []
     for idx, item in enumerate(lines):
         if item[0] == "probes":
-            _, plines, loads, root, after, obs_stats = item
+            _, plines, loads, root, after, obs_stats, cwd = item
             predicted: List[str] = []
             exp_stats: List[str] = []
             loaded = set()          # CMapDB caches a CMap by name once it has been loaded successfully
@@ -697,6 +746,8 @@ def resolve_ties(ctx: C.Ctx, lines, impl, inputs) -> None:
                 probes = [] if reply == "-" else [bytes.fromhex(x).decode("utf-8", "surrogateescape") for x in reply.split(",")]
                 # the first probe that exists (in the sandbox snapshot or on the real cmap dir) is opened
                 for p in probes:
+                    if not os.path.isabs(p) and cwd:
+                        p = os.path.join(cwd, p)         # CMAP_PATH set to "": relative to the working directory
                     q = os.path.normpath(p)
                     exp_stats.append(q)
                     if q in after or os.path.exists(q):
@@ -867,7 +918,11 @@ def run_paths(ctx: C.Ctx) -> None:
             lines.append("norm %s" % hexs(p))
             impl.append(hexs(posixpath.normpath(p)))
             inputs.append(("norm", p))
-        ctx.case(("path", a, b, p), ".." in a + b + p, branch="path-algebra")
+        q = rpath()
+        lines.append("basename %s" % hexs(q))
+        impl.append(hexs(posixpath.basename(q)))
+        inputs.append(("basename", q))
+        ctx.case(("path", a, b, p, q), ".." in a + b + p, branch="path-algebra")
     if ctx.driver is not None:
         outs = ctx.driver.ask(lines)
         for inp, i_out, m_out in zip(inputs, impl, outs):
@@ -875,11 +930,175 @@ def run_paths(ctx: C.Ctx) -> None:
                 ctx.disagree(inp[0], inp[1], i_out, m_out)
 
 
+# ------------------------------------------------------------------ histories of exports (round 6)
+
+HIST_NAMES = ["", ".", "..", "/", "//h/s", "C:\\x", "\\\\h\\s", "a.", "a ", "a\x00b", "\x00", "../x", "/abs", "Im0", "Im0",
+              "Im0", "x/", "./y", "A" * 200, "a/../b", "..\x00", "Im0.0", "../../../../../../tmp/c15-hist-escape", "~", "-r",
+              "/dev/null", "..//", "\x00/", " ", "Im0.bmp"]
+HIST_EXTS = [".bmp", ".bmp", ".jpg", ".jp2", ".jb2", ".img", ".8.3x2.img", ".1.1x1.img"]
+
+
+def _ref_san(name: str) -> str:
+    return name.replace("\x00", "_").replace("/", "_")
+
+
+def impl_history(reqs: List[List[str]], pre: List[str]):
+    """`ImageWriter._create_unique_image_name` called for every request on one output directory that already holds
+    `pre`; the harness creates each chosen file itself — and only when the path lies directly inside the directory,
+    so that a damaged tree cannot write outside the sandbox.  Returns (outdir, [(name, path, inside, existed)], exc)."""
+    from pdfminer.image import ImageWriter
+    root = tempfile.mkdtemp(prefix="c15h_")
+    res: List[Any] = []
+    exc = None
+    try:
+        out = os.path.join(root, "n1", "n2", "out")
+        os.makedirs(out)
+        for n in pre:
+            with open(os.path.join(out, n), "wb") as fp:
+                fp.write(b"old")
+        iw = ImageWriter(out)
+        for name, ext in reqs:
+            im = type("Img", (), {})()
+            im.name = name
+            try:
+                nm, path = iw._create_unique_image_name(im, ext)
+            except Exception as e:  # noqa: BLE001
+                exc = type(e).__name__
+                break
+            try:
+                norm = os.path.normpath(path)
+                inside = os.path.dirname(norm) == out and os.path.basename(norm) not in ("", ".", "..") and \
+                    os.path.join(out, nm) == path and "\x00" not in path and "/" not in nm and nm not in ("", ".", "..")
+                existed = inside and os.path.lexists(path)
+            except Exception:  # noqa: BLE001
+                inside, existed = False, False
+            res.append((nm, path, inside, existed))
+            if not inside or existed:
+                break
+            with open(path, "xb") as fp:
+                fp.write(b"new")
+        untouched = all(open(os.path.join(out, n), "rb").read() == b"old" for n in pre)
+    finally:
+        shutil.rmtree(root, ignore_errors=True)
+    return out, res, exc, untouched
+
+
+def history_verdict(reqs, pre):
+    out, res, exc, untouched = impl_history(reqs, pre)
+    names = [r[0] for r in res]
+    bad = None
+    if exc is not None:
+        bad = "choosing the file name of an exported image raised " + exc
+    elif any(not r[2] for r in res):
+        bad = "the path chosen for an exported image is not a file directly inside output_dir"
+    elif any(r[3] for r in res) or len(set(names)) != len(names) or any(n in pre for n in names) or not untouched:
+        bad = "the file name chosen for an exported image is one that exists already (overwrite)"
+    elif len(res) != len(reqs):
+        bad = "an export request got no file name"
+    return out, res, exc, bad
+
+
+def check_history(ctx: C.Ctx, reqs, pre, lines, impl, inputs, shrink: bool = True) -> None:
+    out, res, exc, bad = history_verdict(reqs, pre)
+    ctx.case(("hist", json.dumps(reqs), tuple(pre)), any(nontrivial_name(n) for n, _ in reqs),
+             sample={"reqs": [[n[:20], e] for n, e in reqs][:4], "pre": pre[:4]}, branch="history:%d" % min(len(reqs), 6))
+    for n, _ in reqs:
+        ctx.branch("history:name:" + ("empty" if n == "" else "dot" if n in (".", "..") else "abs" if n.startswith("/") else
+                                      "nul" if "\x00" in n else "sep" if "/" in n else "long" if len(n) > 100 else "plain"))
+    ctx.branch("history:pre=%d" % min(len(pre), 4))
+    if any(r[0] != _ref_san(n) + e for r, (n, e) in zip(res, reqs)):
+        ctx.branch("history:numbered")
+    if bad is not None:
+        small_reqs, small_pre = reqs, pre
+        if shrink:
+            small_reqs = C.ddmin(reqs, lambda sub: history_verdict(sub, pre)[3] is not None, 60)
+            small_pre = C.ddmin(pre, lambda sub: history_verdict(small_reqs, sub)[3] is not None, 40) if pre else pre
+            if pre and history_verdict(small_reqs, [])[3] is not None:
+                small_pre = []
+            out, res, exc, bad2 = history_verdict(small_reqs, small_pre)
+            bad = bad2 or bad
+        ctx.fail(C.Failure(bad, {"mode": "history", "reqs": small_reqs, "pre": small_pre},
+                           "distinct fresh names directly inside output_dir",
+                           {"chosen": [[r[0], r[1].replace(out, "<out>")] for r in res], "exception": exc},
+                           {"area": "history"}))
+        return
+    lines.append("history %s %s %s" % (hexs(out), ",".join(hexs(n) + ":" + hexs(e) for n, e in reqs) or "-",
+                                       ",".join(hexs(n) for n in pre) or "-"))
+    impl.append(",".join(hexs(r[0]) + ":" + hexs(r[1]) for r in res) or "-")
+    inputs.append(("history", {"mode": "history", "reqs": reqs, "pre": pre}))
+
+
+def impl_safename(name: str) -> str:
+    """The sanitised image name, read off the first candidate in an empty directory (existence probes only)."""
+    from pdfminer.image import ImageWriter
+    root = tempfile.mkdtemp(prefix="c15s_")
+    try:
+        out = os.path.join(root, "n1", "n2", "out")
+        os.makedirs(out)
+        im = type("Img", (), {})()
+        im.name = name
+        try:
+            nm, _ = ImageWriter(out)._create_unique_image_name(im, ".e")
+        except Exception as e:  # noqa: BLE001
+            return "E:" + type(e).__name__
+        return hexs(nm[:-2]) if nm.endswith(".e") else "?" + hexs(nm)
+    finally:
+        shutil.rmtree(root, ignore_errors=True)
+
+
+def run_history(ctx: C.Ctx) -> None:
+    rng = ctx.rng
+    lines, impl, inputs = [], [], []
+    alphabet = ["a", "b", ".", "..", "/", "\x00", " ", "\\", ":", "_", "0", "x"]
+
+    def rname():
+        if rng.random() < 0.6:
+            return rng.choice(HIST_NAMES)
+        return "".join(rng.choice(alphabet) for _ in range(rng.randint(0, 7)))
+    # systematic: every listed name three times with the same extension into a directory holding its first candidates
+    for n in HIST_NAMES:
+        for ext in (".bmp", ".8.3x2.img"):
+            base = _ref_san(n)
+            pre = sorted({base + ext, base + ".1" + ext} - {".", ".."})
+            check_history(ctx, [[n, ext]] * 3, pre if len(n) % 2 == 0 else [], lines, impl, inputs)
+        lines.append("safename " + hexs(n))
+        impl.append(impl_safename(n))
+        inputs.append(("safename", n))
+    for _ in range(ctx.n(250, 5000)):
+        if not ctx.time_left():
+            break
+        k = rng.choice([1, 2, 3, 5, 8])
+        pool = [rname() for _ in range(rng.randint(1, 3))]
+        reqs = [[rng.choice(pool), rng.choice(HIST_EXTS)] for _ in range(k)]
+        pre = []
+        for n, e in reqs:
+            if rng.random() < 0.5:
+                b = _ref_san(n)
+                pre += [b + e] + [b + ".%d%s" % (j, e) for j in range(rng.randint(0, 3)) if rng.random() < 0.8]
+        pre = sorted({p for p in pre if p not in (".", "..") and len(p) < 250})
+        check_history(ctx, reqs, pre, lines, impl, inputs)
+        n = rname()
+        lines.append("safename " + hexs(n))
+        impl.append(impl_safename(n))
+        inputs.append(("safename", n))
+    if ctx.driver is not None and lines:
+        for inp, i_out, m_out in zip(inputs, impl, ctx.driver.ask(lines)):
+            if i_out != m_out:
+                ctx.disagree(inp[0], inp[1], i_out[:400], m_out[:400])
+
+
 # ------------------------------------------------------------------ corpus / replay / run
 
 def replay(ctx: C.Ctx, doc, from_corpus: bool = False) -> None:
     inp = doc.get("input", {})
     ctx.branch("corpus" if from_corpus else "replay")
+    if inp.get("mode") == "history":
+        lines, impl, inputs = [], [], []
+        check_history(ctx, [list(r) for r in inp["reqs"]], list(inp["pre"]), lines, impl, inputs, shrink=False)
+        if ctx.driver is not None and lines:
+            for i2, i_out, m_out in zip(inputs, impl, ctx.driver.ask(lines)):
+                if i_out != m_out:
+                    ctx.disagree(i2[0], i2[1], i_out[:400], m_out[:400])
     if inp.get("mode") == "doc":
         lines, impl, inputs = [], [], []
         check_case(ctx, inp["case"], lines, impl, inputs, shrink=False)
@@ -895,6 +1114,7 @@ def run_corpus(ctx: C.Ctx) -> None:
 def run(ctx: C.Ctx) -> None:
     run_corpus(ctx)
     run_paths(ctx)
+    run_history(ctx)
     rng = ctx.rng
     lines, impl, inputs = [], [], []
     # systematic: every hostile name through every flow once
@@ -911,6 +1131,16 @@ def run(ctx: C.Ctx) -> None:
                     "ordering": "Z" if flow == "registry" else "Identity", "basefont": "Helv", "images": [], "pre": [],
                     "output_type": "text"}
             check_case(ctx, case, lines, impl, inputs)
+    # round 6: plain CMap names through every flow with CMAP_PATH set to a directory / not set / empty, the working
+    # directory holding a loadable file of that name
+    for env in ("dir", "unset", "empty"):
+        for flow in ("encoding-name", "encoding-stream", "usecmap", "registry"):
+            for nm in ("Evil", "good"):
+                case = {"flow": flow, "enc": nm if flow.startswith("encoding") else "Identity-H",
+                        "usecmap": nm if flow == "usecmap" else None, "registry": nm if flow == "registry" else "Adobe",
+                        "ordering": "Z" if flow == "registry" else "Identity", "basefont": "Helv", "images": [], "pre": [],
+                        "output_type": "text", "cmap_env": env}
+                check_case(ctx, case, lines, impl, inputs)
     for nm in IMAGE_NAMES:
         case = {"flow": "image", "enc": "Identity-H", "usecmap": None, "registry": "Adobe", "ordering": "Identity",
                 "basefont": "Helv", "images": [nm, nm], "pre": ["Im0.bmp", "keep.bmp"], "output_type": "text"}
